@@ -363,6 +363,7 @@ static CentreCurve centre_curve(const RobustPath& rp, const RobustPathElement& e
             prev = p1;
         }
         size_t start = 0;
+        bool keep_first = false;
         if (s > 0) {
             // kink between the end of the previous centre curve and the start of this one
             V a1 = C.pts[C.pts.size() - 1], a0 = C.pts[C.pts.size() - 2];
@@ -375,15 +376,29 @@ static CentreCurve centre_curve(const RobustPath& rp, const RobustPathElement& e
             if (th > 1e-3L) {
                 C.theta_max = std::max(C.theta_max, th);
                 if (straight && fabsl(den) > 1e-9L) {
-                    // corner between two straight sections: the displaced lines are extended / trimmed to their intersection
-                    ld u = crossl(pts[0] - a1, t1) / den;
-                    C.pts[C.pts.size() - 1] = a1 + t0 * u;
+                    // corner between two straight sections: on the inner side the two displaced lines cross inside
+                    // the sections; on the outer side SubPath::eval continues the spine straight and interp clamps the
+                    // offset, so the continuations are parallel to the spines
+                    ld u = crossl(pts[0] - a1, t1) / den, v = crossl(pts[0] - a1, t0) / den;
+                    if (u <= 0 && v >= 0) {
+                        C.pts[C.pts.size() - 1] = a1 + t0 * u;
+                    } else {
+                        V s0 = unitl(apply_lin(rp.trafo, sec_deriv(rp.subpath_array[s - 1], 1)));
+                        V s1 = unitl(apply_lin(rp.trafo, sec_deriv(rp.subpath_array[s], 0)));
+                        ld den2 = crossl(s0, s1);
+                        if (fabsl(den2) > 1e-9L) {
+                            ld u2 = crossl(pts[0] - a1, s1) / den2;
+                            C.pts.push_back(a1 + s0 * u2);
+                            C.hw.push_back(C.hw.back());
+                            keep_first = true;
+                        }
+                    }
                 } else if (lenl(pts[0] - a1) > 1e-9L) {
                     C.pts.push_back(pts[0]);  // a gap between the two centre curves is bridged by a straight piece
                     C.hw.push_back(0.5L * interp_l(el.width_array[s], 0) * rp.width_scale);
                 }
             }
-            start = 1;  // the first point coincides with (or is replaced by) the last one of the previous section
+            start = keep_first ? 0 : 1;  // the first point coincides with (or is replaced by) the last one of the previous section
         }
         for (size_t i = start; i < pts.size(); i++) {
             C.pts.push_back(pts[i]);
@@ -695,6 +710,13 @@ static void record_case(Builder& B, bool oas, const std::string& gid, const std:
             for (uint64_t i = 0; i < fp->spine.point_array.count; i++) got.push_back(tov(fp->spine.point_array[i]));
             ld dev = poly_dev(got, C.pts);
             ld lim = 3 * (ld)B.tol + 3e-3L;
+            if (getenv("C08_TRACE")) {
+                fprintf(stderr, " element %d record centre (read back):", (int)e);
+                for (auto& p : got) fprintf(stderr, " (%.4Lf,%.4Lf)", p.x, p.y);
+                fprintf(stderr, "\n  centre curve here:");
+                for (auto& p : C.pts) fprintf(stderr, " (%.4Lf,%.4Lf)", p.x, p.y);
+                fprintf(stderr, "\n  deviation %.6Lg\n", dev);
+            }
             if (dev > lim) {
                 snprintf(buf, sizeof buf, "element %d: PATH centre line deviates %.6Lg from the centre curve (limit %.3Lg)", (int)e, dev, lim);
                 fail = std::string("FAIL robustpath-record-centre ") + buf;
